@@ -255,11 +255,11 @@ def save_load(p, res, where, name="c16.json", into=None):
     return p2
 
 
-CFG = gen.Cfg(onesided=2, servable=2, facilities=True, max_tasks=6, max_time=[40], abs_max=12, chain_components=True, due=True,
+CFG = gen.Cfg(onesided=2, servable=2, facilities=True, max_tasks=6, max_time=[40], abs_max=12, chain_components=True, due=True, org_tree=2, ids_flat=4,
               work_pool=[0.0, 0.5, 1.0, 1.0, 2.0, 3.0])
 # nested products only without workplaces here: backward_simulate reverses the dependencies, which turns the
 # assembly form around (parent tasks first) and leads into the nested-placement findings D-PLC2..4 of C13
-CFG_N = CFG.copy(nested="free", max_wps=0)
+CFG_N = CFG.copy(nested="free", max_wps=0, multi_parent=2)
 OPS = ["sim", "pause", "pause", "backward", "save_load", "save_load"]
 
 
